@@ -196,6 +196,7 @@ def reset(plan=None):
     STATE.plan = plan
     STATE.problems = []
     STATE.reads = collections.Counter()
+    STATE.at_raise = []
 
 
 def leaks():
@@ -243,6 +244,12 @@ def gen_scenario(rng, idx):
             lines.insert(rng.randrange(len(lines) + 1), "<impl>\n  k 1\n</impl>".replace("\n", "\n"))
             lines = "\n".join(lines).split("\n")
             lines.insert(0, "%%import %sa" % pkg)
+        if rng.random() < 0.5:
+            # a definition (and perhaps a use): nothing of it may outlive the load
+            k = rng.randrange(len(lines) + 1)
+            lines.insert(k, "%define zcvdef dv")
+            if rng.random() < 0.5:
+                lines.insert(rng.randrange(k + 1, len(lines) + 1), "top $zcvdef")
         text = "".join(l + "\n" for l in lines)
         main = "file:///zcv/a/b/c/main.conf"
         resources, cuts = gen.cut_includes(rng, text, main, ncuts=rng.choice([0, 1, 2, 3]))
@@ -357,6 +364,21 @@ class Runner:
             # one ConfigLoader object serves the faulted load and the fault-free load after it
             self.cloader = ZConfig.loader.ConfigLoader(self.schema)
 
+    def probe(self):
+        """After a (failed) load: a text that only USES the name the scenario defines, through the
+        same loader object.  -> None when it is refused (nothing was left behind)."""
+        ZConfig = loadcheck.zc()
+        loader = getattr(self, "cloader", None)
+        if loader is None:
+            return None
+        try:
+            cfg, _h = loader.loadFile(io.StringIO("top $zcvdef\n"), "file:///zcv/probe.conf")
+        except ZConfig.ConfigurationError:
+            return None
+        except Exception as e:  # noqa
+            return "raised %r" % (e,)
+        return "accepted: top=%r" % (cfg.top,)
+
     def run(self, plan=None, conv=None):
         """-> outcome tuple; resets the tracking state first."""
         ZConfig = loadcheck.zc()
@@ -379,12 +401,17 @@ class Runner:
                 s = self.loader.loadFile(open(self.main, encoding="utf-8"))
             return ("ok", digest.schema_digest(s))
         except ZConfig.ConfigurationError as e:
+            # "closed by the time the call ... raises": looked at while the exception is still held
+            STATE.at_raise = leaks()
             return ("reject", type(e).__name__)
         except Injected:
+            STATE.at_raise = leaks()
             return ("injected-escaped",)
         except zdt.Boom:
+            STATE.at_raise = leaks()
             return ("boom",)
         except Exception as e:  # noqa
+            STATE.at_raise = leaks()
             return ("other", type(e).__name__, str(e)[:200])
         finally:
             STATE.plan = None
@@ -399,6 +426,8 @@ def run_scenario(sc, res=None, only=None):
         lk = leaks()
         for l in lk:
             out.append(("leak:fault-free", l, None))
+        for l in STATE.at_raise:
+            out.append(("leak:fault-free:while-the-exception-is-held", l, None))
         reads = dict(STATE.reads)
         nres = len(STATE.resources)
         nopens = STATE.opens
@@ -435,6 +464,12 @@ def run_scenario(sc, res=None, only=None):
             else:
                 o = R.run(plan=p)
             label = "%s" % (p[0],)
+            for l in STATE.at_raise:
+                out.append(("leak:after-%s-fault:while-the-exception-is-held" % label, "%s ; point %r ; outcome %r" % (l, p, o[:2]), p))
+            if sc["kind"] == "config" and "zcvdef" in "".join(sc["resources"].values()):
+                pr = R.probe()
+                if pr is not None:
+                    out.append(("definition-left-behind-after-%s-fault" % label, "point %r ; probe 'top $zcvdef' -> %s" % (p, pr), p))
             for l in leaks():
                 out.append(("leak:after-%s-fault" % label, "%s ; point %r ; outcome %r" % (l, p, o[:2]), p))
             if o[0] == "ok" and p[0] != "conv":
